@@ -585,7 +585,12 @@ class World:
                     # when did the call that made this attempt begin?
                     ts = [v['t_call'] for k, v in results.items() if n_ == f'caller{k[0]}' and v['t_call'] <= a_ + 1e-9 and v.get('t_ret', 1e99) >= a_ - 1e-9]
                     return max(ts) if ts else a_
-                late = [(a, b) for (a, b), nb in zip(zip(mine, mine[1:]), names[1:]) if b - a < 3 - 0.05 and issued(b, nb) - a > 1e-3]
+                # (the time check of check_connection() uses the moment of the CHECK: a call that passed it in the same instant
+                # as another one and then waited 2 s for the access lock before its own - slowly refused - attempt has stored a
+                # time stamp that is 2 s older than its attempt.  The next attempt is measured from the earliest moment the
+                # previous one can have stored its stamp: the begin of the call that made it)
+                late = [(a, b) for ((a, b), nb), na in zip(zip(zip(mine, mine[1:]), names[1:]), names)
+                        if b - a < 3 - 0.05 and issued(b, nb) - a > 1e-3 and b - issued(a, na) < 3 - 0.05]
                 if src == 'caller' and late:
                     r.violation(f'C16/reconnect-attempts-too-frequent/by-{src}s/some-time-after-another-attempt', f'reconnect interval 3 s, attempts by {src}s at '
                                 f'{[round(a - dev["dropped"], 3) for a in mine]}', case)
